@@ -12,7 +12,7 @@ from fractions import Fraction as F
 import numpy as np
 import astropy.units as u
 
-from pbmc import bind_repo, report, factory
+from pbmc import bind_repo, report, factory, history
 from pbmc.exact import time_days as T, hz
 from pbmc.oracles import dft
 from checks.c03 import shift_shapes, meta_same
@@ -315,6 +315,8 @@ def check_case(case):
                 break
         else:
             res.hits["sample_rate assigned between shifts"] += 1
+    history.reuse_buffer(res, case, zg, [("freq_shift 1 bin", lambda q_: pb.freq_shift(q_, (1 * sr_in_unit / N) * unit)),
+                                         ("freq_shift -2.5 bins", lambda q_: pb.freq_shift(q_, (-2.5 * sr_in_unit / N) * unit))], "freq_shift")
     # error contract
     zi = factory.make("IntensitySignal", np.ones((4, 2)), rate_name="1Hz", chan_bw=1 * u.Hz)
     for bad, exc, what in ((lambda: pb.freq_shift(zi, 1 * u.Hz), TypeError, "non-baseband"),
@@ -337,7 +339,7 @@ def check_case(case):
 def main(argv=None):
     return report.run_check(
         PID, gen_cases=gen_cases, check_case=check_case, describe=describe,
-        required_hits=["wrapped bins checked", "|shift| >= bandwidth (all zero)",
+        required_hits=["buffer overwritten between calls", "wrapped bins checked", "|shift| >= bandwidth (all zero)",
                        "scalar shift on multi-element sample shape", "shift broadcast across sample axes", "alternating complex widths", "sample_rate assigned between shifts", "long signal", "error contract"],
         assumptions=["value budget 64*eps(dtype)*N*max|x|; the mixing phasor is computed in the signal's own precision",
                      "a shift within 1e-9 of a whole bin at a non-dyadic rate leaves the single boundary bin open"],
